@@ -95,11 +95,16 @@ def gen_pairs(ctx):
                     half = [(k2, configs.fmt(eff / 2)) if k2 == 'End-Use Efficiency Factor' else (k2, v) for k2, v in cfg]
                     pairs.append(('efficiency', {**desc, 'eff': eff}, with_(cfg, costs(1)), with_(half, costs(1))))
                 elif kind == 'neutral-itc':
-                    pairs.append(('neutral', {**desc, 'what': 'Investment Tax Credit Rate = 0'}, with_(cfg, costs(1)),
-                                  with_(cfg, costs(1) + [('Investment Tax Credit Rate', 0)])))
+                    # the base already carries grants / incentives / fees: a zero-rate credit must not switch anything on or off
+                    other = [('One-time Grants Etc', configs.dec(rnd, 0.5, 8, 2)), ('Other Incentives', configs.dec(rnd, 0.1, 3, 2)),
+                             ('One-time Flat License Fees Etc', configs.dec(rnd, 0.1, 3, 2))]
+                    other = [o for o in other if rnd.random() < 0.7] or other[:1]
+                    pairs.append(('neutral', {**desc, 'what': 'Investment Tax Credit Rate = 0'}, with_(cfg, costs(1) + other),
+                                  with_(cfg, costs(1) + other + [('Investment Tax Credit Rate', 0)])))
                 else:
-                    pairs.append(('neutral', {**desc, 'what': 'One-time Grants Etc = 0'}, with_(cfg, costs(1)),
-                                  with_(cfg, costs(1) + [('One-time Grants Etc', 0)])))
+                    other = [('Investment Tax Credit Rate', configs.dec(rnd, 0.05, 0.4, 2))] if rnd.random() < 0.6 else []
+                    pairs.append(('neutral', {**desc, 'what': 'One-time Grants Etc = 0'}, with_(cfg, costs(1) + other),
+                                  with_(cfg, costs(1) + other + [('One-time Grants Etc', 0)])))
     for _ in range(ctx.n(6, 60)):    # cost scaling with redrilling: the amortised (Cwell + Cstim) x redrillings / lifetime term of
         # O&M comes from the drilling and stimulation correlations, so their adjustment factors are cost inputs to scale too
         eu = rnd.choice(configs.ENDUSES)
